@@ -1,8 +1,8 @@
-(* Index files are trusted only when they belong to the blob -- and where that fails (Index/Open.v).
-   Self-contained: depends on Format/RecordProofs.v for list lemmas only. *)
+(* Index files are trusted only when they belong to the blob and are complete (Index/Open.v).
+   Depends on Format/RecordProofs.v for list lemmas and on Index/BPTreeProofs.v for the sizes of tree nodes. *)
 Require Import Pearl.Base.Prelude Pearl.Base.LE Pearl.Base.LEProofs Pearl.Generated.Consts
-               Pearl.Format.Record Pearl.Format.RecordProofs Pearl.Index.BPTree Pearl.Blob.Scan
-               Pearl.Index.Bytes Pearl.Index.Open.
+               Pearl.Format.Record Pearl.Format.RecordProofs Pearl.Index.BPTree Pearl.Index.BPTreeProofs
+               Pearl.Blob.Bytes Pearl.Blob.Scan Pearl.Index.Bytes Pearl.Index.Open.
 
 (* ------------------------------------------------------------------------------------------------ *)
 (* helpers                                                                                          *)
@@ -53,6 +53,18 @@ Proof.
   rewrite firstn_app_len by apply le64_length. apply le64_val. reflexivity.
 Qed.
 
+Lemma F_count : c < 2^64 -> u64_at F 8 = c.
+Proof.
+  intros H. unfold u64_at. replace 8%nat with (8 + 0)%nat by reflexivity. skip_ih.
+  rewrite firstn_app_len by apply le64_length. apply le64_val, H.
+Qed.
+
+Lemma F_rhs : r < 2^64 -> u64_at F 16 = r.
+Proof.
+  intros H. unfold u64_at. replace 16%nat with (8 + (8 + 0))%nat by reflexivity. skip_ih.
+  rewrite firstn_app_len by apply le64_length. apply le64_val, H.
+Qed.
+
 Lemma F_msz : ms < 2^64 -> u64_at F 24 = ms.
 Proof.
   intros H. unfold u64_at. replace 24%nat with (8 + (8 + (8 + 0)))%nat by reflexivity. skip_ih.
@@ -82,19 +94,21 @@ End Fields.
 (* opening any file that starts with header ++ meta ++ TreeMeta                                     *)
 (* ------------------------------------------------------------------------------------------------ *)
 
-Definition open_result (written : bool) (K' bsize lo to : N) (len : nat) (K bs : N) : (N * N) + ierr :=
-  if N.of_nat len <? to then inr IPanicOrEof
+Definition open_result (c r : N) (written : bool) (K' bsize lo to : N) (len : nat) (K bs : N) : (N * N) + ierr :=
+  if N.of_nat len <? lo + c * r then inr ICut
+  else if N.of_nat len <? to then inr IPanicOrEof
   else if negb written then inr INotWritten
   else if negb (K' =? K) then inr IKeySize
   else if negb (bsize =? bs) then inr IBlobSize
   else inl (lo, to).
 
 Lemma index_open_gen c r hash w K' bsize meta lo to rest K bs :
-  length hash = 32%nat -> N.of_nat (length meta) < 2^64 -> K' < 2^16 -> bsize < 2^64 -> lo < 2^64 -> to < 2^64 ->
+  length hash = 32%nat -> c < 2^64 -> r < 2^64 -> N.of_nat (length meta) < 2^64 -> K' < 2^16 -> bsize < 2^64 ->
+  lo < 2^64 -> to < 2^64 ->
   index_open (index_header_bytes c r (N.of_nat (length meta)) hash w K' bsize ++ meta ++ le64 lo ++ le64 to ++ rest) K bs
-  = open_result w K' bsize lo to (83 + length meta + 16 + length rest) K bs.
+  = open_result c r w K' bsize lo to (83 + length meta + 16 + length rest) K bs.
 Proof.
-  intros Hh Hm HK Hb Hlo Hto.
+  intros Hh Hc Hr Hm HK Hb Hlo Hto.
   set (IH := index_header_bytes c r (N.of_nat (length meta)) hash w K' bsize).
   set (T := meta ++ le64 lo ++ le64 to ++ rest).
   assert (HlI : length IH = 83%nat) by (apply ihb_length, Hh).
@@ -102,8 +116,8 @@ Proof.
   { subst T. rewrite !app_length, HlI, !le64_length. lia. }
   unfold index_open, decode_index_header. rewrite HlF.
   destruct (Nat.ltb_spec (83 + length meta + 16 + length rest) 83) as [C|_]; [lia|].
-  cbn [ih_magic ih_msz ih_ver ih_ksz ih_bsize].
-  subst IH. rewrite F_magic, F_msz, F_ver, F_ksz, F_bsize by assumption.
+  cbn [ih_magic ih_count ih_rhs ih_msz ih_ver ih_ksz ih_bsize].
+  subst IH. rewrite F_magic, F_count, F_rhs, F_msz, F_ver, F_ksz, F_bsize by assumption.
   set (IH := index_header_bytes c r (N.of_nat (length meta)) hash w K' bsize) in *.
   destruct (N.ltb_spec (N.of_nat (83 + length meta + 16 + length rest)) (83 + N.of_nat (length meta) + 16)) as [C|_]; [lia|].
   replace (N.to_nat (83 + N.of_nat (length meta))) with (83 + length meta)%nat by lia.
@@ -114,6 +128,84 @@ Proof.
     apply u64_at_app; [rewrite !app_length, HlI, le64_length; reflexivity|exact Hto]. }
   rewrite E1, E2, ver_bit, ver_shift, !N.eqb_refl. cbn [negb]. unfold open_result. reflexivity.
 Qed.
+
+(* ------------------------------------------------------------------------------------------------ *)
+(* the size of a serialized tree: every node has one offset more than keys                         *)
+(* ------------------------------------------------------------------------------------------------ *)
+
+Definition node_good (n : node) : Prop := length (noffs n) = S (length (nkeys n)).
+
+Lemma amount_ge_1 B ksz : 1 <= max_amount B ksz /\ 1 <= min_amount B ksz <= max_amount B ksz.
+Proof.
+  unfold min_amount, max_amount. set (q := (B - 8 - 8) / (ksz + 8)).
+  replace (q + 1 - 1) with q by lia.
+  assert (Hq : q / 2 <= q) by (apply N.div_le_upper_bound; lia).
+  clearbody q. revert Hq. generalize (q / 2). intros h Hq. lia.
+Qed.
+
+Lemma groups_all_nonempty B ksz : forall fuel arr, arr <> [] -> Forall (fun g => g <> []) (groups B ksz fuel arr).
+Proof.
+  pose proof (amount_ge_1 B ksz) as (Hmax & Hmin1 & Hmin2).
+  induction fuel as [|f IH]; intros arr Hne.
+  - cbn [groups]. constructor; [exact Hne|constructor].
+  - rewrite groups_S. destruct (N.ltb_spec (max_amount B ksz) (N.of_nat (length arr))) as [E|E].
+    + set (a := N.to_nat (N.min (max_amount B ksz) (N.of_nat (length arr) - min_amount B ksz))).
+      assert (Ha : (1 <= a < length arr)%nat) by lia.
+      constructor.
+      * apply length_ne. rewrite firstn_length. lia.
+      * apply IH. apply length_ne. rewrite skipn_length. lia.
+    + constructor; [exact Hne|constructor].
+Qed.
+
+Lemma mknode_good base g : g <> [] -> node_good (mknode base g).
+Proof.
+  intros Hg. unfold node_good, mknode. cbn [nkeys noffs]. rewrite !map_length.
+  destruct g as [|e g]; [congruence|reflexivity].
+Qed.
+
+Lemma build_tree_good B ksz : forall fuel arr to buf,
+  Forall node_good buf -> Forall node_good (build_tree B ksz fuel arr to buf).
+Proof.
+  induction fuel as [|f IH]; intros arr to buf Hbuf; [exact Hbuf|].
+  destruct arr as [|a [|b arr]]; [exact Hbuf|exact Hbuf|].
+  cbn [build_tree]. destruct (next_layer B ksz (a :: b :: arr)) as [nn ls].
+  apply Forall_app. split; [apply IH, Hbuf|].
+  rewrite write_layer_eq. apply Forall_forall. intros n Hn.
+  apply in_map_iff in Hn. destruct Hn as (g & <- & Hg). apply mknode_good.
+  pose proof (groups_all_nonempty B ksz (length (a :: b :: arr)) (a :: b :: arr)) as Hall.
+  rewrite Forall_forall in Hall. apply Hall; [discriminate|exact Hg].
+Qed.
+
+Lemma flat_map_const_length {A} (f : A -> bytes) (c : nat) (l : list A) :
+  (forall x, length (f x) = c) -> length (flat_map f l) = (length l * c)%nat.
+Proof.
+  intros Hf. induction l as [|x l IHl]; cbn [flat_map length]; [reflexivity|].
+  rewrite app_length, Hf, IHl. lia.
+Qed.
+
+Lemma be_bytes_length : forall n v, length (be_bytes n v) = n.
+Proof.
+  induction n as [|n IHn]; intros v; cbn [be_bytes]; [reflexivity|].
+  rewrite app_length, IHn. cbn [length]. lia.
+Qed.
+
+Lemma node_bytes_length K n : node_good n -> N.of_nat (length (node_bytes K n)) = nsz K n.
+Proof.
+  intros Hg. unfold node_bytes, nsz, node_size.
+  rewrite !app_length, le64_length.
+  rewrite (flat_map_const_length (be_bytes (N.to_nat K)) (N.to_nat K)) by (intros x; apply be_bytes_length).
+  rewrite (flat_map_const_length le64 8) by apply le64_length.
+  rewrite Hg. lia.
+Qed.
+
+Lemma nodes_bytes_length K ns : Forall node_good ns -> N.of_nat (length (flat_map (node_bytes K) ns)) = nodes_size K ns.
+Proof.
+  induction 1 as [|n ns Hn _ IHns]; [reflexivity|].
+  cbn [flat_map]. rewrite app_length, nodes_size_cons, <- IHns, <- (node_bytes_length K n Hn). lia.
+Qed.
+
+Lemma ih_header_bytes_length K h : length (encode_header (ih_header K h)) = (57 + N.to_nat K)%nat.
+Proof. rewrite encode_header_length. unfold ih_header, with_hcrc. cbn [h_key]. rewrite be_bytes_length. reflexivity. Qed.
 
 (* ------------------------------------------------------------------------------------------------ *)
 (* index_file_bytes                                                                                 *)
@@ -139,58 +231,106 @@ Proof. reflexivity. Qed.
 Lemma idx_offsets_le K meta m : tree_offset (idx_file K meta m) <= leaves_offset (idx_file K meta m).
 Proof. unfold idx_file, serialize. cbn [tree_offset leaves_offset]. lia. Qed.
 
-(* side conditions: the hash has 32 bytes, the key size fits u16, the blob size and the leaves offset
-   (hence also the tree offset and the meta length) fit u64 *)
-Definition idx_ok (K : N) (hash meta : bytes) (m : inmem ih) (bsize : N) : Prop :=
-  length hash = 32%nat /\ K < 2^16 /\ bsize < 2^64 /\ leaves_offset (idx_file K meta m) < 2^64.
+(* the leaves are the last section: a complete file has exactly leaves_offset + count * record_header_size bytes *)
+Lemma idx_file_nodes_good K meta m : Forall node_good (nodes (idx_file K meta m)).
+Proof. unfold idx_file, serialize. cbn [nodes]. apply build_tree_good. constructor. Qed.
 
-Lemma idx_ok_sizes K hash meta m bsize : idx_ok K hash meta m bsize ->
-  N.of_nat (length meta) < 2^64 /\ tree_offset (idx_file K meta m) < 2^64.
+Lemma idx_tail_length K meta m :
+  N.of_nat (length (idx_tail K meta m))
+  = leaves_offset (idx_file K meta m) - tree_offset (idx_file K meta m) + count ih m * (57 + K).
 Proof.
-  intros (_ & _ & _ & Hl). pose proof (idx_offsets_le K meta m) as Hle.
-  pose proof (idx_tree_offset K meta m) as Ht. split; lia.
+  unfold idx_tail. rewrite app_length, Nnat.Nat2N.inj_add, (nodes_bytes_length K _ (idx_file_nodes_good K meta m)).
+  rewrite (flat_map_const_length _ (57 + N.to_nat K)) by (intros x; apply ih_header_bytes_length).
+  unfold idx_file, serialize, count. cbn [nodes recs leaves_offset tree_offset].
+  lia.
 Qed.
 
+Theorem index_file_length : forall K hash written meta m bsize, length hash = 32%nat ->
+  N.of_nat (length (index_file_bytes K hash written meta m bsize))
+  = leaves_offset (idx_file K meta m) + count ih m * (57 + K).
+Proof.
+  intros K hash written meta m bsize Hh. rewrite index_file_bytes_eq.
+  rewrite !app_length, (ihb_length _ _ _ _ _ _ _ Hh), !le64_length, !Nnat.Nat2N.inj_add, idx_tail_length.
+  pose proof (idx_offsets_le K meta m) as Hle. rewrite idx_tree_offset in *. lia.
+Qed.
+
+(* side conditions: the hash has 32 bytes, the key size fits u16, the blob size and the size of the index
+   file (hence also the record count, the leaves offset, the tree offset and the meta length) fit u64 *)
+Definition idx_ok (K : N) (hash meta : bytes) (m : inmem ih) (bsize : N) : Prop :=
+  length hash = 32%nat /\ K < 2^16 /\ bsize < 2^64 /\
+  leaves_offset (idx_file K meta m) + count ih m * (57 + K) < 2^64.
+
+Lemma idx_ok_sizes K hash meta m bsize : idx_ok K hash meta m bsize ->
+  count ih m < 2^64 /\ 57 + K < 2^64 /\ N.of_nat (length meta) < 2^64 /\
+  leaves_offset (idx_file K meta m) < 2^64 /\ tree_offset (idx_file K meta m) < 2^64.
+Proof.
+  intros (_ & HK & _ & Hl). pose proof (idx_offsets_le K meta m) as Hle.
+  pose proof (idx_tree_offset K meta m) as Ht.
+  assert (Hc : count ih m <= count ih m * (57 + K)) by nia.
+  change (2^16) with 65536 in HK. change (2^64) with 18446744073709551616 in *. repeat split; lia.
+Qed.
+
+(* any file that starts like the produced one, in terms of its length *)
 Lemma index_open_file_gen K hash written meta m bsize K0 bs rest :
   idx_ok K hash meta m bsize ->
   index_open (index_header_bytes (count ih m) (57 + K) (N.of_nat (length meta)) hash written K bsize
               ++ meta ++ le64 (leaves_offset (idx_file K meta m)) ++ le64 (tree_offset (idx_file K meta m)) ++ rest) K0 bs
+  = if N.of_nat (83 + length meta + 16 + length rest) <? leaves_offset (idx_file K meta m) + count ih m * (57 + K)
+    then inr ICut
+    else if negb written then inr INotWritten
+    else if negb (K =? K0) then inr IKeySize
+    else if negb (bsize =? bs) then inr IBlobSize
+    else inl (leaves_offset (idx_file K meta m), tree_offset (idx_file K meta m)).
+Proof.
+  intros Hok. pose proof (idx_ok_sizes _ _ _ _ _ Hok) as (Hc & Hr & Hm & Hl & Ht). destruct Hok as (Hh & HK & Hb & _).
+  rewrite index_open_gen by assumption. unfold open_result.
+  destruct (N.ltb_spec (N.of_nat (83 + length meta + 16 + length rest))
+                       (leaves_offset (idx_file K meta m) + count ih m * (57 + K))) as [_|_]; [reflexivity|].
+  destruct (N.ltb_spec (N.of_nat (83 + length meta + 16 + length rest)) (tree_offset (idx_file K meta m))) as [C|_];
+    [rewrite idx_tree_offset in C; lia|reflexivity].
+Qed.
+
+(* the produced file itself *)
+Lemma index_open_file K hash written meta m bsize K0 bs :
+  idx_ok K hash meta m bsize ->
+  index_open (index_file_bytes K hash written meta m bsize) K0 bs
   = if negb written then inr INotWritten
     else if negb (K =? K0) then inr IKeySize
     else if negb (bsize =? bs) then inr IBlobSize
     else inl (leaves_offset (idx_file K meta m), tree_offset (idx_file K meta m)).
 Proof.
-  intros Hok. pose proof (idx_ok_sizes _ _ _ _ _ Hok) as (Hm & Ht). destruct Hok as (Hh & HK & Hb & Hl).
-  rewrite index_open_gen by assumption. unfold open_result.
-  destruct (N.ltb_spec (N.of_nat (83 + length meta + 16 + length rest)) (tree_offset (idx_file K meta m))) as [C|_];
-    [rewrite idx_tree_offset in C; lia|reflexivity].
+  intros Hok. pose proof (index_file_length K hash written meta m bsize (proj1 Hok)) as Hlen.
+  rewrite index_file_bytes_eq in *. rewrite index_open_file_gen by exact Hok.
+  rewrite !app_length, (ihb_length _ _ _ _ _ _ _ (proj1 Hok)), !le64_length in Hlen.
+  destruct (N.ltb_spec (N.of_nat (83 + length meta + 16 + length (idx_tail K meta m)))
+                       (leaves_offset (idx_file K meta m) + count ih m * (57 + K))) as [C|_]; [lia|reflexivity].
 Qed.
 
 Theorem index_open_accepts : forall K hash meta m bsize, idx_ok K hash meta m bsize ->
   index_open (index_file_bytes K hash true meta m bsize) K bsize
   = inl (leaves_offset (idx_file K meta m), tree_offset (idx_file K meta m)).
 Proof.
-  intros K hash meta m bsize Hok. rewrite index_file_bytes_eq, index_open_file_gen by exact Hok.
+  intros K hash meta m bsize Hok. rewrite index_open_file by exact Hok.
   rewrite !N.eqb_refl. reflexivity.
 Qed.
 
 Theorem index_open_rejects_unwritten : forall K hash meta m bsize K0 bs, idx_ok K hash meta m bsize ->
   index_open (index_file_bytes K hash false meta m bsize) K0 bs = inr INotWritten.
 Proof.
-  intros K hash meta m bsize K0 bs Hok. rewrite index_file_bytes_eq, index_open_file_gen by exact Hok. reflexivity.
+  intros K hash meta m bsize K0 bs Hok. rewrite index_open_file by exact Hok. reflexivity.
 Qed.
 
 Theorem index_open_rejects_stale : forall K hash meta m bsize bsize', idx_ok K hash meta m bsize ->
   bsize' <> bsize -> index_open (index_file_bytes K hash true meta m bsize) K bsize' = inr IBlobSize.
 Proof.
-  intros K hash meta m bsize bsize' Hok Hne. rewrite index_file_bytes_eq, index_open_file_gen by exact Hok.
+  intros K hash meta m bsize bsize' Hok Hne. rewrite index_open_file by exact Hok.
   rewrite N.eqb_refl. cbn [negb]. destruct (N.eqb_spec bsize bsize') as [E|_]; [congruence|reflexivity].
 Qed.
 
 Theorem index_open_rejects_other_key_size : forall K hash meta m bsize K0 bs, idx_ok K hash meta m bsize ->
   K0 <> K -> index_open (index_file_bytes K hash true meta m bsize) K0 bs = inr IKeySize.
 Proof.
-  intros K hash meta m bsize K0 bs Hok Hne. rewrite index_file_bytes_eq, index_open_file_gen by exact Hok.
+  intros K hash meta m bsize K0 bs Hok Hne. rewrite index_open_file by exact Hok.
   cbn [negb]. destruct (N.eqb_spec K K0) as [E|_]; [congruence|reflexivity].
 Qed.
 
@@ -200,7 +340,7 @@ Theorem index_open_rejects_short : forall K hash written meta m bsize K0 bs n, i
   index_open (firstn n (index_file_bytes K hash written meta m bsize)) K0 bs = inr IEof.
 Proof.
   intros K hash written meta m bsize K0 bs n Hok Hn.
-  pose proof (idx_ok_sizes _ _ _ _ _ Hok) as (Hm & Ht). destruct Hok as (Hh & HK & Hb & Hl).
+  pose proof (idx_ok_sizes _ _ _ _ _ Hok) as (Hc & Hr & Hm & Hl & Ht). destruct Hok as (Hh & HK & Hb & _).
   rewrite index_file_bytes_eq.
   set (T := meta ++ _).
   set (IH := index_header_bytes _ _ _ _ _ _ _).
@@ -214,16 +354,18 @@ Proof.
   destruct (N.ltb_spec (N.of_nat n) (83 + N.of_nat (length meta) + 16)) as [_|C]; [reflexivity|lia].
 Qed.
 
-(* REFUTATION (finding F5): any truncation at or beyond the tree offset -- i.e. a file that lost ALL its
-   tree nodes and record headers, or any part of them -- is still trusted, with the same offsets *)
-Theorem index_open_accepts_truncated : forall K hash meta m bsize K0 bs n, idx_ok K hash meta m bsize ->
-  (83 + length meta + 16 <= n)%nat ->
-  index_open (firstn n (index_file_bytes K hash true meta m bsize)) K0 bs
-  = index_open (index_file_bytes K hash true meta m bsize) K0 bs.
+(* a file cut anywhere behind the TreeMeta -- inside the tree nodes or the record headers -- is rejected by the
+   length check (before commit cb0b7cf of the code every such file was trusted with the offsets of the complete
+   one: finding F5) *)
+Theorem index_open_rejects_cut : forall K hash written meta m bsize K0 bs n, idx_ok K hash meta m bsize ->
+  (83 + length meta + 16 <= n)%nat -> (n < length (index_file_bytes K hash written meta m bsize))%nat ->
+  index_open (firstn n (index_file_bytes K hash written meta m bsize)) K0 bs = inr ICut.
 Proof.
-  intros K hash meta m bsize K0 bs n Hok Hn. rewrite index_file_bytes_eq.
-  set (IH := index_header_bytes _ _ _ _ _ _ _).
-  set (lo := leaves_offset _). set (to := tree_offset _).
+  intros K hash written meta m bsize K0 bs n Hok Hn Hlt.
+  pose proof (index_file_length K hash written meta m bsize (proj1 Hok)) as Hlen.
+  rewrite index_file_bytes_eq in *.
+  set (IH := index_header_bytes _ _ _ _ _ _ _) in *.
+  set (lo := leaves_offset _) in *. set (to := tree_offset _) in *.
   assert (HlI : length IH = 83%nat) by (apply ihb_length, Hok).
   assert (E : firstn n (IH ++ meta ++ le64 lo ++ le64 to ++ idx_tail K meta m)
               = IH ++ meta ++ le64 lo ++ le64 to ++ firstn (n - (83 + length meta + 16)) (idx_tail K meta m)).
@@ -231,21 +373,38 @@ Proof.
     rewrite firstn_app, firstn_all2 by (rewrite !app_length, HlI, !le64_length; lia).
     rewrite !app_length, HlI, !le64_length.
     replace (83 + (length meta + (8 + 8)))%nat with (83 + length meta + 16)%nat by lia. reflexivity. }
-  rewrite E. subst IH lo to. rewrite !index_open_file_gen by exact Hok. reflexivity.
+  rewrite !app_length, HlI, !le64_length in Hlt, Hlen.
+  rewrite E. subst IH lo to. rewrite index_open_file_gen by exact Hok.
+  rewrite firstn_length.
+  destruct (N.ltb_spec (N.of_nat (83 + length meta + 16 + Nat.min (n - (83 + length meta + 16)) (length (idx_tail K meta m))))
+                       (leaves_offset (idx_file K meta m) + count ih m * (57 + K))) as [_|C]; [reflexivity|lia].
 Qed.
 
-Corollary index_open_trusts_headerless_file : forall K hash meta m bsize, idx_ok K hash meta m bsize ->
-  index_open (firstn (83 + length meta + 16) (index_file_bytes K hash true meta m bsize)) K bsize
-  = inl (leaves_offset (idx_file K meta m), tree_offset (idx_file K meta m)).
+(* EVERY proper prefix of a produced index file is rejected *)
+Theorem index_open_rejects_truncated : forall K hash written meta m bsize K0 bs n, idx_ok K hash meta m bsize ->
+  (n < length (index_file_bytes K hash written meta m bsize))%nat ->
+  exists e, index_open (firstn n (index_file_bytes K hash written meta m bsize)) K0 bs = inr e.
 Proof.
-  intros K hash meta m bsize Hok.
-  rewrite index_open_accepts_truncated by (exact Hok || lia). apply index_open_accepts, Hok.
+  intros K hash written meta m bsize K0 bs n Hok Hlt.
+  destruct (Nat.lt_ge_cases n (83 + length meta + 16)) as [Hs|Hs].
+  - exists IEof. apply index_open_rejects_short; assumption.
+  - exists ICut. apply index_open_rejects_cut; assumption.
 Qed.
 
+(* concrete files for the computed examples of Properties/C03.v: three records under two keys (no tree node),
+   and 200 keys (one tree node in front of the leaves) *)
+Definition ex_rec (k ts : N) : ih := {| ih_key := k; ih_ts := ts; ih_del := false; ih_msize := 0; ih_dsize := 3; ih_off := 0 |}.
+Definition ex_map3 : inmem ih := pm_push (pm_push (pm_push [] (ex_rec 5 1)) (ex_rec 7 2)) (ex_rec 5 3).
+Fixpoint ex_many (n : nat) (m : inmem ih) : inmem ih :=
+  match n with O => m | S k => ex_many k (pm_push m (ex_rec (N.of_nat n) 1)) end.
+Definition ex_index3 : bytes := index_file_bytes 4 (repeat 0 32) true [1; 2; 3] ex_map3 1000.
+Definition ex_index200 : bytes := index_file_bytes 4 (repeat 0 32) true [1; 2; 3] (ex_many 200 []) 1000.
+
+Print Assumptions index_file_length.
 Print Assumptions index_open_accepts.
 Print Assumptions index_open_rejects_unwritten.
 Print Assumptions index_open_rejects_stale.
 Print Assumptions index_open_rejects_other_key_size.
 Print Assumptions index_open_rejects_short.
-Print Assumptions index_open_accepts_truncated.
-Print Assumptions index_open_trusts_headerless_file.
+Print Assumptions index_open_rejects_cut.
+Print Assumptions index_open_rejects_truncated.
